@@ -2119,7 +2119,14 @@ func (p *produceRequest) tryAddBatch(produceVersion int32, recBuf *recBuf, batch
 			if flexible {
 				batchWireLength += uvarlen(len(recBuf.topic)) + lt + 1 // compact string len, topic, compact array len for 1 item
 			} else {
-				batchWireLength += 2 + lt + 4 // string len, topic, partition array len
+				n := 2 + lt + 4 // string len, topic, partition array len
+				if produceVersion < 0 && n < 16+1 {
+					// We do not know the version yet: if it turns out
+					// to be v13+, a short topic name is replaced by a
+					// 16 byte topic ID and a compact array length.
+					n = 16 + 1
+				}
+				batchWireLength += n
 			}
 		}
 	} else if flexible {
